@@ -268,7 +268,29 @@ class Inliner:
         self.log: list[str] = []
 
     # -- which callee may be inlined at this call
+    def _super_init(self, fi: FunctionInfo, call: ast.Call) -> FunctionInfo | None:
+        """`super().__init__(...)` in the __init__ of a class whose base is a private class of the same module (a storage /
+        plumbing base extracted from sibling classes): the base's initialiser, to be read as part of this one."""
+        f = call.func
+        if not (fi.name == "__init__" and fi.is_method and fi.cls is not None and isinstance(f, ast.Attribute) and f.attr == "__init__"):
+            return None
+        if not (isinstance(f.value, ast.Call) and isinstance(f.value.func, ast.Name) and f.value.func.id == "super" and not f.value.args and not f.value.keywords):
+            return None
+        for c in self.prog.mro(fi.cls)[1:]:
+            m = c.method("__init__")
+            if m is not None:
+                if c.module is fi.module and c.name.startswith("_") and not m.decorator_names():
+                    sn = self.prog.self_name(fi)
+                    if sn is not None:
+                        call._super_self = sn[0]  # type: ignore[attr-defined]
+                        return m
+                return None
+        return None
+
     def target(self, fi: FunctionInfo, call: ast.Call, awaited: bool) -> FunctionInfo | None:
+        sup = self._super_init(fi, call)
+        if sup is not None and not awaited and not (sup.node.args.vararg or sup.node.args.kwarg) and not any(isinstance(x, (ast.Nonlocal, ast.Global)) for x in sup.own_nodes()):
+            return sup
         q = self.prog.resolve_callee(fi, call)
         t = self.prog.functions.get(q or "")
         if t is None or t is fi or t.module is not fi.module:
@@ -346,6 +368,8 @@ class Inliner:
             if not isinstance(call.func, ast.Attribute):
                 return None
             recv = call.func.value
+            if getattr(call, "_super_self", None):
+                recv = ast.copy_location(ast.Name(id=call._super_self, ctx=ast.Load()), recv)  # type: ignore[attr-defined]
             if "classmethod" in decos and not _is_simple(recv):
                 return None
             args = [recv, *args]
@@ -551,6 +575,8 @@ class Inliner:
         mapping, pre = bound
         k = self.counter
         ret = f"__ret_h{k}"
+        # argument temporaries are evaluated in the caller: helper calls inside them (`f(await g(...))`) are inlined too
+        pre = self._flatten_body(fi, pre, stack)
         inner = self._flatten_body(t, [clone(x) for x in t.node.body], stack + (t.qualname,))
         body = self.substituted_body(t, mapping, k, ret, inner)
         block = _at(ast.If(test=ast.Constant(value=True), body=pre + body or [ast.Pass()], orelse=[]), call)
@@ -754,6 +780,22 @@ def _left_spine_slot(s: ast.stmt) -> tuple[ast.AST, str] | None:
     return None
 
 
+def _is_type_expression(e: ast.AST) -> bool:
+    """Names, dotted names, subscriptions, `|` unions, lists / tuples of those and constants: evaluating it calls nothing
+    of the analysed package."""
+    if isinstance(e, (ast.Name, ast.Constant)):
+        return True
+    if isinstance(e, ast.Attribute):
+        return _is_type_expression(e.value)
+    if isinstance(e, ast.Subscript):
+        return _is_type_expression(e.value) and _is_type_expression(e.slice)
+    if isinstance(e, ast.BinOp) and isinstance(e.op, ast.BitOr):
+        return _is_type_expression(e.left) and _is_type_expression(e.right)
+    if isinstance(e, (ast.Tuple, ast.List)):
+        return all(_is_type_expression(x) for x in e.elts)
+    return False
+
+
 def _spine_positions(owner: ast.AST, field: str):
     """Yield (owner, field, index|None) slots along the left spine (first-evaluated sub-expressions)."""
     e = getattr(owner, field)
@@ -773,9 +815,13 @@ def _spine_positions(owner: ast.AST, field: str):
             owner, field, idx = cur, "test", None
         elif isinstance(cur, ast.Call):
             if isinstance(cur.func, ast.Attribute) and _is_simple(cur.func.value) and cur.args and not isinstance(cur.args[0], ast.Starred):
+                if isinstance(cur.func.value, ast.Name):
+                    yield cur.func, "value", None  # the receiver, a plain name, is read before the arguments
                 owner, field, idx = cur, "args", 0
             elif isinstance(cur.func, ast.Attribute):
                 owner, field, idx = cur.func, "value", None
+            elif isinstance(cur.func, ast.Name) and cur.func.id == "cast" and len(cur.args) == 2 and not cur.keywords and _is_type_expression(cur.args[0]):
+                owner, field, idx = cur, "args", 1  # typing.cast(<type expression>, VALUE): the value is what is computed first
             elif isinstance(cur.func, ast.Name):
                 yield cur, "func", None
                 if cur.args and not isinstance(cur.args[0], ast.Starred):
@@ -858,6 +904,35 @@ def simplify_locals(fi: FunctionInfo, body: list[ast.stmt], log: list[str]) -> b
             if isinstance(s, ast.Match):
                 for c in s.cases:
                     yield from blocks(c.body)
+
+    # (g) an attribute alias bound inside an `if` test (`if (d := self._disposables) is not None:`): bound in a statement
+    #     of its own in front of the `if` - the walrus sits on the left spine of the test, so it is evaluated first and
+    #     unconditionally; (c) then reads the attribute through its owner again
+    hoisting = True
+    while hoisting:
+        hoisting = False
+        for block in blocks(body):
+            for i, s1 in enumerate(block):
+                if not isinstance(s1, ast.If):
+                    continue
+                for owner, field, idx in _spine_positions(s1, "test"):
+                    w = _get_slot(owner, field, idx)
+                    if not isinstance(w, ast.NamedExpr):
+                        continue
+                    v = w.value
+                    if w.target.id in params or not (isinstance(v, ast.Attribute) and _is_simple(v) and _root_name(v) in params):
+                        break
+                    if len(_name_uses(body, w.target.id)[1]) != 1:
+                        break
+                    _set_slot(owner, field, idx, ast.copy_location(ast.Name(id=w.target.id, ctx=ast.Load()), w))
+                    block.insert(i, ast.fix_missing_locations(ast.copy_location(ast.Assign(targets=[ast.Name(id=w.target.id, ctx=ast.Store())], value=v), s1)))
+                    log.append(f"{fi.short}: attribute alias `{w.target.id}` bound in an `if` test moved in front of it")
+                    changed = hoisting = True
+                    break
+                if hoisting:
+                    break
+            if hoisting:
+                break
 
     again = True
     while again:
@@ -1202,6 +1277,26 @@ def specialise_module_closures(prog: Program) -> list[str]:
             tgt = st.target if isinstance(st, ast.AnnAssign) else (st.targets[0] if isinstance(st, ast.Assign) and len(st.targets) == 1 else None)
             val = getattr(st, "value", None)
             made = _specialised(makers, tgt, val) if isinstance(tgt, ast.Name) and isinstance(val, ast.Call) else None
+            if made is None and isinstance(tgt, ast.Name) and isinstance(val, ast.Dict):
+                # a registry display whose values are made on the spot: `{Missing: make_validator_factory(MISSING), ...}` - each
+                # such value is written out as a function of its own (named after the registry key's role when the tables know
+                # it) and the display refers to it by name
+                taken = {s.name for s in mod.tree.body if isinstance(s, (ast.FunctionDef, ast.AsyncFunctionDef, ast.ClassDef))} | {n.id for s in mod.tree.body for n in ast.walk(s) if isinstance(n, ast.Name) and isinstance(n.ctx, ast.Store)}
+                for i_, (k_, v_) in enumerate(zip(val.keys, val.values)):
+                    if k_ is None or not isinstance(v_, ast.Call):
+                        continue
+                    kname = k_.id if isinstance(k_, ast.Name) else (k_.attr if isinstance(k_, ast.Attribute) else None)
+                    wanted = _VALIDATOR_KEYS.get(kname or "") if tgt.id == "VALIDATORS" else None
+                    fname = wanted if wanted and wanted not in taken else f"{getattr(v_.func, 'id', 'made')}__{kname or i_}"
+                    if fname in taken:
+                        continue
+                    spec = _specialised(makers, ast.Name(id=fname, ctx=ast.Store()), v_)
+                    if spec is None:
+                        continue
+                    taken.add(fname)
+                    new_body.append(ast.fix_missing_locations(ast.copy_location(spec, v_)))
+                    val.values[i_] = ast.copy_location(ast.Name(id=fname, ctx=ast.Load()), v_)
+                    changed += 1
             if made is None:
                 new_body.append(st)
             else:
@@ -1592,3 +1687,196 @@ def strip_typed_conversions(prog: Program) -> list[str]:
             log.append(f"{mod.name}: {count} conversion(s) to the type the value already has dropped / statement-level mapping.pop(key, default) read as del")
     return log
 
+
+
+# ---------------------------------------------------------------------------------------------- cursor loops
+def cursor_loops_as_recursion(prog: Program) -> list[str]:
+    """A method that ends in `cursor = self; while True: BODY(cursor); cursor = NEXT` - a walk along a chain of objects of
+    its own class, the tail call `NEXT.method()` written as a loop - is read in its recursive form again: BODY(self);
+    NEXT.method(); return.  One iteration with cursor = X is exactly one activation of the method on X when nothing but the
+    cursor is carried from one iteration to the next: every other local of the loop is bound unconditionally before it is
+    read, the loop has no break / continue / valued return, `self` is not used inside it and the method returns nothing."""
+    log: list[str] = []
+
+    def scoped_walk(n: ast.AST):
+        yield n
+        for c in ast.iter_child_nodes(n):
+            if isinstance(c, (ast.FunctionDef, ast.AsyncFunctionDef, ast.Lambda, ast.ListComp, ast.SetComp, ast.DictComp, ast.GeneratorExp, ast.ClassDef)):
+                continue
+            yield from scoped_walk(c)
+
+    for fi in list(prog.functions.values()):
+        node = fi.node
+        if not fi.is_method or not isinstance(node, ast.FunctionDef) or {"staticmethod", "classmethod"} & set(fi.decorator_names()):
+            continue
+        params = node.args.posonlyargs + node.args.args
+        if not params:
+            continue
+        selfname = params[0].arg
+        body = node.body
+        if len(body) < 2 or not isinstance(body[-1], ast.While):
+            continue
+        loop, init = body[-1], body[-2]
+        if not (isinstance(loop.test, ast.Constant) and loop.test.value is True and not loop.orelse and loop.body):
+            continue
+        tgt = init.targets[0] if isinstance(init, ast.Assign) and len(init.targets) == 1 else (init.target if isinstance(init, ast.AnnAssign) else None)
+        if not (isinstance(tgt, ast.Name) and isinstance(getattr(init, "value", None), ast.Name) and init.value.id == selfname):
+            continue
+        cursor = tgt.id
+        last = loop.body[-1]
+        ltgt = last.targets[0] if isinstance(last, ast.Assign) and len(last.targets) == 1 else (last.target if isinstance(last, ast.AnnAssign) and last.value is not None else None)
+        if not (isinstance(ltgt, ast.Name) and ltgt.id == cursor):
+            continue
+        inner = [n for s in loop.body for n in scoped_walk(s)]
+        everything = [n for s in loop.body for n in ast.walk(s)]
+        if any(isinstance(n, (ast.Break, ast.Continue, ast.Yield, ast.YieldFrom, ast.Await, ast.Global, ast.Nonlocal)) for n in everything):
+            continue
+        if any(isinstance(n, ast.Return) and n.value is not None and not (isinstance(n.value, ast.Constant) and n.value.value is None) for n in inner):
+            continue
+        if any(isinstance(n, ast.Return) and n.value is not None and not (isinstance(n.value, ast.Constant) and n.value.value is None) for s in body[:-2] for n in scoped_walk(s)):
+            continue
+        if any(isinstance(n, ast.Name) and n.id == selfname for n in everything):
+            continue
+        if sum(1 for n in everything if isinstance(n, ast.Name) and n.id == cursor and isinstance(n.ctx, ast.Store)) != 1:
+            continue
+        if any(isinstance(n, ast.Name) and n.id == cursor for s in body[:-2] for n in ast.walk(s)):
+            continue
+        # nothing but the cursor is carried over: every other local is bound by a top-level statement of the loop body before
+        # its first use
+        stored = {n.id for n in inner if isinstance(n, ast.Name) and isinstance(n.ctx, ast.Store)} | {n.name for n in inner if isinstance(n, (ast.MatchAs, ast.MatchStar, ast.ExceptHandler)) and n.name}
+        stored.discard(cursor)
+        ok = True
+        for name in stored:
+            if any(isinstance(n, ast.Name) and n.id == name for s in body[:-2] for n in ast.walk(s)) or name in {p.arg for p in params + node.args.kwonlyargs}:
+                ok = False
+                break
+            first = next((k for k, s in enumerate(loop.body) if any(isinstance(n, ast.Name) and n.id == name for n in ast.walk(s))), None)
+            s0 = loop.body[first] if first is not None else None
+            t0 = s0.targets[0] if isinstance(s0, ast.Assign) and len(s0.targets) == 1 else (s0.target if isinstance(s0, ast.AnnAssign) and s0.value is not None else None)
+            if not (isinstance(t0, ast.Name) and t0.id == name) or any(isinstance(n, ast.Name) and n.id == name for n in ast.walk(s0.value)):  # type: ignore[union-attr]
+                ok = False
+                break
+        if not ok:
+            continue
+        cls = fi.qualname.rsplit(".", 1)[0]
+        nxt = last.value
+        t = prog.expr_type(fi, nxt)
+        if t is None or t.name != cls:
+            continue
+
+        class S(ast.NodeTransformer):
+            def visit_Name(self, n: ast.Name):  # noqa: N802
+                if n.id == cursor and isinstance(n.ctx, ast.Load):
+                    return ast.copy_location(ast.Name(id=selfname, ctx=ast.Load()), n)
+                return n
+
+        new_body = [S().visit(s) for s in loop.body[:-1]]
+        call = ast.copy_location(ast.Expr(value=ast.Call(func=ast.Attribute(value=S().visit(nxt), attr=node.name, ctx=ast.Load()), args=[], keywords=[])), last)
+        if len(params) != 1 or node.args.kwonlyargs or node.args.vararg or node.args.kwarg:
+            continue  # further parameters would have to be carried as well
+        node.body = body[:-2] + new_body + [call, ast.copy_location(ast.Return(value=None), last)]
+        ast.fix_missing_locations(node)
+        log.append(f"{fi.short}: loop over the cursor `{cursor}` read as the tail call {ast.unparse(call.value)}")
+    return log
+
+
+# ---------------------------------------------------------------------------------------------- spelled-out with statements
+def explicit_context_protocol_as_with(prog: Program) -> list[str]:
+    """`await X.__aenter__(); try: BODY except BaseException as e: await X.__aexit__(type(e), e, e.__traceback__); raise
+    else: await X.__aexit__(None, None, None)` is the expansion of `async with X: BODY` for a manager whose __aexit__ never
+    suppresses (no valued return in the resolved class's method); likewise the synchronous protocol.  Read as the with
+    statement again."""
+    log: list[str] = []
+
+    def proto_call(e: ast.AST, recv: str, name: str, awaited: bool) -> ast.Call | None:
+        if awaited:
+            if not isinstance(e, ast.Await):
+                return None
+            e = e.value
+        if isinstance(e, ast.Call) and isinstance(e.func, ast.Attribute) and e.func.attr == name and dotted(e.func.value) == recv:
+            return e
+        return None
+
+    def is_none(e: ast.AST) -> bool:
+        return isinstance(e, ast.Constant) and e.value is None
+
+    def exit_args(c: ast.Call) -> list[ast.expr] | None:
+        if any(isinstance(a, ast.Starred) for a in c.args) or any(k.arg is None for k in c.keywords):
+            return None
+        names = ["exc_type", "exc_val", "exc_tb"]
+        got: dict[str, ast.expr] = dict(zip(names, c.args))
+        for k in c.keywords:
+            if k.arg not in names or k.arg in got:
+                return None
+            got[k.arg] = k.value
+        return [got[n] for n in names] if len(got) == 3 else None
+
+    for fi in list(prog.functions.values()):
+        count = 0
+
+        def rewrite(stmts: list[ast.stmt], fi=fi) -> list[ast.stmt]:
+            nonlocal count
+            out: list[ast.stmt] = []
+            i = 0
+            while i < len(stmts):
+                s = stmts[i]
+                for field in ("body", "orelse", "finalbody"):
+                    sub = getattr(s, field, None)
+                    if isinstance(sub, list) and sub and isinstance(sub[0], ast.stmt) and not isinstance(s, (ast.FunctionDef, ast.AsyncFunctionDef, ast.ClassDef)):
+                        setattr(s, field, rewrite(sub))
+                if isinstance(s, ast.Try):
+                    for h in s.handlers:
+                        h.body = rewrite(h.body)
+                if isinstance(s, ast.Match):
+                    for c in s.cases:
+                        c.body = rewrite(c.body)
+                nxt = stmts[i + 1] if i + 1 < len(stmts) else None
+                done = False
+                if isinstance(s, ast.Expr) and isinstance(nxt, ast.Try) and len(nxt.handlers) == 1 and not nxt.finalbody and len(nxt.orelse) == 1:
+                    for awaited, enter, exit_ in ((True, "__aenter__", "__aexit__"), (False, "__enter__", "__exit__")):
+                        e = s.value.value if awaited and isinstance(s.value, ast.Await) else (s.value if not awaited else None)
+                        if not (isinstance(e, ast.Call) and isinstance(e.func, ast.Attribute) and e.func.attr == enter and not e.args and not e.keywords and _is_simple(e.func.value)):
+                            continue
+                        recv = dotted(e.func.value)
+                        h = nxt.handlers[0]
+                        if recv is None or not (h.type is None or (isinstance(h.type, ast.Name) and h.type.id == "BaseException")) or h.name is None:
+                            continue
+                        hb = [x for x in h.body if not (isinstance(x, ast.Expr) and isinstance(x.value, ast.Constant))]
+                        if not (len(hb) == 2 and isinstance(hb[0], ast.Expr) and isinstance(hb[1], ast.Raise) and hb[1].exc is None):
+                            continue
+                        c1 = proto_call(hb[0].value, recv, exit_, awaited)
+                        c2 = proto_call(nxt.orelse[0].value, recv, exit_, awaited) if isinstance(nxt.orelse[0], ast.Expr) else None
+                        a1 = exit_args(c1) if c1 is not None else None
+                        a2 = exit_args(c2) if c2 is not None else None
+                        if a1 is None or a2 is None or not all(is_none(a) for a in a2):
+                            continue
+                        n_ = h.name
+                        if not (ast.unparse(a1[0]) == f"type({n_})" and ast.unparse(a1[1]) == n_ and ast.unparse(a1[2]) == f"{n_}.__traceback__"):
+                            continue
+                        # the receiver is not re-bound inside the body and its class's exit never suppresses
+                        root = _root_name(e.func.value)
+                        if any(isinstance(n, ast.Name) and n.id == root and isinstance(n.ctx, ast.Store) for b in nxt.body for n in ast.walk(b)):
+                            continue
+                        t = prog.expr_type(fi, e.func.value)
+                        if t is None or t.name not in prog.classes:
+                            continue
+                        m = next((c.method(exit_) for c in prog.mro(prog.classes[t.name]) if c.method(exit_) is not None), None)
+                        if m is None or any(isinstance(r, ast.Return) and r.value is not None and not is_none(r.value) for r in m.own_nodes()):
+                            continue
+                        item = ast.withitem(context_expr=e.func.value, optional_vars=None)
+                        w = (ast.AsyncWith if awaited else ast.With)(items=[item], body=nxt.body)
+                        out.append(ast.copy_location(w, s))
+                        count += 1
+                        i += 2
+                        done = True
+                        break
+                if not done:
+                    out.append(s)
+                    i += 1
+            return out
+
+        fi.node.body = rewrite(fi.node.body)
+        if count:
+            ast.fix_missing_locations(fi.node)
+            log.append(f"{fi.short}: {count} spelled-out enter / try / exit protocol(s) read as with statement(s)")
+    return log
